@@ -76,6 +76,99 @@ def emit_enum(tname, members):
     return lines
 def emit_set(name, tname, members): return ["Definition %s : list %s := [%s]." % (name, tname, "; ".join("%s_%s" % (tname, coq_ident(m)) for m in members))]
 
+# ---------------------------------------------------------------- matching-strategy presets (isoquant.py set_matching_options)
+def top_func(tree, name):
+    for n in tree.body:
+        if isinstance(n, ast.FunctionDef) and n.name == name: return n
+    raise Refuse("function %s not found" % name)
+
+def num_lit(node):
+    """int / float literal (optionally negated) -> python number"""
+    if isinstance(node, ast.UnaryOp) and isinstance(node.op, ast.USub): return -num_lit(node.operand)
+    if isinstance(node, ast.Constant) and isinstance(node.value, (int, float)) and not isinstance(node.value, bool): return node.value
+    refuse(node, "not a numeric literal")
+
+def coq_q(v):
+    f = Fraction(repr(v)) if isinstance(v, float) else Fraction(v)
+    return "(%d # %d)%%Q" % (f.numerator, f.denominator)
+
+def matching_presets(out):
+    """Fail-closed reading of set_matching_options: the `strategies` dict of MatchingStrategy(...) literals with the namedtuple's field
+       order, and every `args.<name> = <literal | min(lit, args.x) | args.y | strategy.<field>>` assignment at the top level of the function."""
+    lra = parse("src/long_read_assigner.py")
+    arm = []
+    for n in top_class(lra, "AmbiguityResolvingMethod").body:
+        if isinstance(n, ast.Assign) and len(n.targets) == 1 and isinstance(n.targets[0], ast.Name):
+            v = num_lit(n.value)
+            if isinstance(v, int): arm.append((n.targets[0].id, v))
+    if not arm or len(set(a for a, _ in arm)) != len(arm): raise Refuse("AmbiguityResolvingMethod members")
+    out.append("")
+    out.append("Inductive ARM := %s." % " | ".join("ARM_%s" % coq_ident(a) for a, _ in arm))
+    out.append("Definition ARM_value (x:ARM) : Z := match x with %s end." % " ".join("| ARM_%s => (%d)%%Z" % (coq_ident(a), v) for a, v in arm))
+    fn = top_func(parse("isoquant.py"), "set_matching_options")
+    fields = None; presets = None; consts = []; from_strategy = {}
+    want_fields = ['delta', 'max_intron_shift', 'max_missed_exon_len', 'max_fake_terminal_exon_len', 'max_suspicious_intron_abs_len',
+                   'max_suspicious_intron_rel_len', 'resolve_ambiguous', 'correct_minor_errors']
+    for st in fn.body:
+        if not isinstance(st, ast.Assign) or len(st.targets) != 1: continue          # if-blocks (delta / resolve_ambiguous overrides from the command line) and logging
+        t = st.targets[0]; v = st.value
+        if isinstance(t, ast.Name) and t.id == "MatchingStrategy":
+            if not (isinstance(v, ast.Call) and getattr(v.func, "id", None) == "namedtuple" and len(v.args) == 2 and isinstance(v.args[1], ast.Tuple)): refuse(st, "MatchingStrategy shape")
+            fields = [e.value for e in v.args[1].elts]
+        elif isinstance(t, ast.Name) and t.id == "strategies":
+            if not isinstance(v, ast.Dict): refuse(st, "strategies not a dict literal")
+            presets = []
+            for k, c in zip(v.keys, v.values):
+                if not (isinstance(k, ast.Constant) and isinstance(k.value, str) and isinstance(c, ast.Call) and getattr(c.func, "id", None) == "MatchingStrategy" and not c.keywords): refuse(c, "preset shape")
+                presets.append((k.value, c.args))
+        elif isinstance(t, ast.Attribute) and isinstance(t.value, ast.Name) and t.value.id == "args":
+            nm = t.attr
+            if isinstance(v, ast.Attribute) and isinstance(v.value, ast.Name) and v.value.id == "strategy":
+                if v.attr != nm: refuse(st, "args.%s taken from another preset field" % nm)
+                from_strategy[nm] = True
+            elif isinstance(v, ast.Attribute) and isinstance(v.value, ast.Name) and v.value.id == "args":
+                consts.append((nm, ("alias", v.attr)))
+            elif isinstance(v, ast.Call) and getattr(v.func, "id", None) == "min" and len(v.args) == 2 and isinstance(v.args[1], ast.Attribute) and getattr(v.args[1].value, "id", None) == "args":
+                consts.append((nm, ("min", num_lit(v.args[0]), v.args[1].attr)))
+            elif isinstance(v, ast.Subscript): continue                                # args.resolve_ambiguous = AmbiguityResolvingMethod[...]
+            else: consts.append((nm, ("lit", num_lit(v))))
+        elif isinstance(t, ast.Name) and t.id in ("strategy", "updated_strategy"): continue
+        else: refuse(st, "unexpected assignment in set_matching_options")
+    if fields != want_fields: raise Refuse("MatchingStrategy fields changed: %s" % fields)
+    if presets is None or [p[0] for p in presets] != ['exact', 'precise', 'default', 'loose']: raise Refuse("matching strategy names changed")
+    for f in want_fields[1:6] + ['correct_minor_errors']:
+        if f not in from_strategy: raise Refuse("args.%s is no longer taken from the preset" % f)
+    out.append("Record MSP := mkMSP { ms_delta : Z; ms_max_intron_shift : Z; ms_max_missed_exon_len : Z; ms_max_fake_terminal_exon_len : Z; "
+               "ms_max_suspicious_intron_abs_len : Z; ms_max_suspicious_intron_rel_len : Q; ms_resolve_ambiguous : ARM; ms_correct_minor_errors : bool }.")
+    arm_names = set(a for a, _ in arm)
+    for name, a in presets:
+        if len(a) != 8: raise Refuse("preset %s arity" % name)
+        ints = [num_lit(x) for x in a[:5]]
+        if not all(isinstance(x, int) for x in ints): raise Refuse("preset %s: integer fields" % name)
+        rel = num_lit(a[5])
+        if not (isinstance(a[6], ast.Constant) and a[6].value in arm_names): refuse(a[6], "resolve_ambiguous not a member name")
+        if not (isinstance(a[7], ast.Constant) and isinstance(a[7].value, bool)): refuse(a[7], "correct_minor_errors not a bool")
+        out.append("Definition MS_%s : MSP := mkMSP %s %s ARM_%s %s." % (coq_ident(name), " ".join("(%d)%%Z" % x for x in ints), coq_q(rel), coq_ident(a[6].value), "true" if a[7].value else "false"))
+    out.append("Inductive MSN := %s." % " | ".join("MSN_%s" % coq_ident(n) for n, _ in presets))
+    out.append("Definition MSN_all : list MSN := [%s]." % "; ".join("MSN_%s" % coq_ident(n) for n, _ in presets))
+    out.append("Definition MS_preset (n:MSN) : MSP := match n with %s end." % " ".join("| MSN_%s => MS_%s" % (coq_ident(n), coq_ident(n)) for n, _ in presets))
+    # the options every strategy shares
+    done = {}
+    for nm, v in consts:
+        if nm in done: raise Refuse("args.%s assigned twice" % nm)
+        if v[0] == "lit":
+            out.append("Definition MO_%s : %s := %s." % (nm, "Q" if isinstance(v[1], float) else "Z", coq_q(v[1]) if isinstance(v[1], float) else "(%d)%%Z" % v[1]))
+            done[nm] = "Q" if isinstance(v[1], float) else "Z"
+        elif v[0] == "alias":
+            if v[1] not in done: raise Refuse("args.%s = args.%s before its definition" % (nm, v[1]))
+            out.append("Definition MO_%s : %s := MO_%s." % (nm, done[v[1]], v[1])); done[nm] = done[v[1]]
+        else:
+            if v[2] not in want_fields or not isinstance(v[1], int): raise Refuse("args.%s: min() shape" % nm)
+            out.append("Definition MO_%s (s:MSP) : Z := Z.min (%d)%%Z (ms_%s s)." % (nm, v[1], v[2])); done[nm] = "fun"
+    for need in ("minor_exon_extension", "major_exon_extension", "min_abs_exon_overlap", "min_rel_exon_overlap", "micro_intron_length", "max_intron_abs_diff",
+                 "max_intron_rel_diff", "apa_delta", "minimal_exon_overlap", "minimal_intron_absence_overlap"):
+        if need not in done: raise Refuse("args.%s no longer set by set_matching_options" % need)
+
 def main():
     out = ["(* GENERATED by translate_tables.py from %s -- do not edit *)" % REPO,
            "From Coq Require Import NArith ZArith QArith List. Import ListNotations. Open Scope N_scope.", ""]
@@ -97,6 +190,14 @@ def main():
     out += ["Definition MES_cost (x:MES) : option Q := match x with %s | _ => None end." % " ".join("| MES_%s => Some %s" % (coq_ident(k), q) for k, q in pairs)]
     out += emit_set("MES_without_cost", "MES", [m for m, _ in mes if m not in set(p[0] for p in pairs)])
     mc = enum_members(top_class(ia, "MatchClassification")); out += [""] + emit_enum("MC", mc)
+    post = []; matching_presets(post)
+    for n in top_class(ia, "SupplementaryMatchConstants").body:
+        if isinstance(n, ast.Assign) and len(n.targets) == 1 and isinstance(n.targets[0], ast.Name) and n.targets[0].id.endswith("_position"):
+            try: val = eval(compile(ast.Expression(n.value), "<const>", "eval"), {"__builtins__": {}}, {})
+            except Exception: refuse(n, "constant expression")
+            if not isinstance(val, int): refuse(n, "constant type")
+            post.append("Definition SMC_%s : Z := (%d)%%Z." % (n.targets[0].id, val))
+    if len([l for l in post if l.startswith("Definition SMC_")]) != 4: raise Refuse("SupplementaryMatchConstants positions changed")
     ser = parse("src/serialization.py")
     out.append("")
     for n in ser.body:
@@ -114,6 +215,7 @@ def main():
             if isinstance(n, ast.Assign) and isinstance(n.targets[0], ast.Name) and n.targets[0].id in fields:
                 if isinstance(n.value.value, float): out.append("Definition AP_%s : Q := %s." % (n.targets[0].id, q_of(n.value)))
                 else: out.append("Definition AP_%s : Z := %d%%Z." % (n.targets[0].id, n.value.value))
+    out += post
     print("\n".join(out))
 if __name__ == "__main__":
     try: main()
